@@ -3,10 +3,12 @@
    - the iterator encoder, collected until its first None, yields [frame p] (Spec/Frame.v);
    - the buffer encoder yields [frame p] in a growable buffer, and in a fixed buffer of
      capacity N yields [frame p] if the frame fits and OutOfMemory ([None]) otherwise;
-   - after the last byte the iterator returns None on every further call.
-   This file contains the statement only. *)
+   - after the last byte the iterator returns None on every further call;
+   - [C07_size]: a frame is a multiple of four bytes long, at least |p| + 16 and at most
+     2|p| + 19 bytes - so a fixed buffer of 2|p| + 19 bytes always suffices for the buffer encoder.
+   This file contains the statements only. *)
 Require Export Sml.Base.Prelude Sml.Base.Crc Sml.Spec.Frame Sml.Model.Decode Sml.Model.Encode.
-Require Export Sml.Proofs.EncodeCorrect.
+Require Export Sml.Proofs.EncodeCorrect Sml.Proofs.FrameSize.
 
 Theorem C07_format : forall p : list byte,
   enc_collect p = frame p /\
@@ -21,6 +23,21 @@ Proof.
   intros k. destruct (enc_ends_for_good p k) as (e' & <- & H1 & H2). split; assumption.
 Qed.
 Print Assumptions C07_format.
+
+Theorem C07_size : forall p : list byte,
+  length (frame p) = (length (esc p) + pad_of (length (esc p)) + 16)%nat /\
+  (Nat.modulo (length (frame p)) 4 = 0)%nat /\
+  (length p + 16 <= length (frame p) <= 2 * length p + 19)%nat.
+Proof. exact frame_length. Qed.
+Print Assumptions C07_size.
+
+Corollary C07_buffer_suffices : forall (p : list byte) (n : nat),
+  (2 * length p + 19 <= n)%nat -> encode_buf (Some n) p = Some (frame p).
+Proof.
+  intros p n H. destruct (C07_format p) as (_ & _ & E & _). rewrite E.
+  destruct (frame_length p) as (_ & _ & B). destruct (Nat.leb_spec (length (frame p)) n); [reflexivity|lia].
+Qed.
+Print Assumptions C07_buffer_suffices.
 
 (* the specification is the wire format the standard describes (concrete vectors) *)
 Example C07_vector_basic :
